@@ -20,10 +20,11 @@
   particular that no intermediate machine operation overflows and no `expect` fires.
 -/
 import Chrono.Proofs.IterL
+import Chrono.Proofs.ArithExtL
 import Chrono.Extracted.ArithToks
 
 namespace Chrono.Props.C03
-open Chrono Chrono.M Chrono.Spec Chrono.Proofs Chrono.Extracted
+open Chrono Chrono.M Chrono.Spec Chrono.Proofs Chrono.Proofs.ArithExt Chrono.Extracted
 
 /-! ### Tie to the source text -/
 
@@ -425,5 +426,682 @@ example : Zoned.checked_add_signed ⟨NaiveDT.MAX, 86399⟩ ⟨0, 1⟩ = .ok non
       .ok (some ⟨⟨dateOfYo 2023 365, ⟨86399, 0⟩⟩, -3600⟩) ∧
     Zoned.signed_duration_since ⟨⟨dateOfYo 2024 1, ⟨0, 0⟩⟩, -3600⟩ ⟨⟨dateOfYo 2024 1, ⟨0, 0⟩⟩, 7200⟩ =
       .ok ⟨0, 0⟩ := by decide +kernel
+
+/-! ## Audit gaps closed 2026-09-30 -/
+
+/-! ### `size_hint` as the pair the source returns; what it tracks -/
+
+/-- `Iterator::size_hint` of both iterators, as the `(usize, Option<usize>)` pair of the source:
+lower and upper bound coincide and are the number of days (whole weeks) from the cursor up to
+`NaiveDate::MAX`; the `as usize` casts never wrap; no panic.  The cursor does not record a
+direction, so this is the value whichever way the iterator is driven. -/
+theorem iter_size_hint_pair (v : Date) (h : DateInv v) :
+    DaysIter.size_hint_pair v = .ok (DN_MAX - dayNumOf v, some (DN_MAX - dayNumOf v)) ∧
+    WeeksIter.size_hint_pair v = .ok ((DN_MAX - dayNumOf v) / 7, some ((DN_MAX - dayNumOf v) / 7)) ∧
+    0 ≤ DN_MAX - dayNumOf v ∧ DN_MAX - dayNumOf v ≤ 191491528 := by
+  obtain ⟨_, c2, _⟩ := dn_consts
+  obtain ⟨p1, p2⟩ := hint_pair_spec v h
+  have hb := dn_bounds v h
+  rw [c2]
+  exact ⟨p1, p2, by omega, by omega⟩
+
+/-- forward iteration: a call of `next` either returns the cursor and moves it one step (1 / 7 days)
+— the hint then drops by exactly one — or returns `None`, which happens exactly when the hint is
+`(0, Some(0))`.  So before every forward call the hint is the number of items still to come. -/
+theorem iter_size_hint_step (v : Date) (h : DateInv v) :
+    (∀ item v', DaysIter.next v = .ok (some (item, v')) →
+      item = v ∧ DateInv v' ∧ dayNumOf v' = dayNumOf v + 1 ∧
+      ∃ n, DaysIter.size_hint_pair v = .ok (n, some n) ∧
+        DaysIter.size_hint_pair v' = .ok (n - 1, some (n - 1))) ∧
+    (DaysIter.next v = .ok none ↔ DaysIter.size_hint_pair v = .ok (0, some 0)) ∧
+    (DaysIter.next v = .ok none ∨ ∃ v', DaysIter.next v = .ok (some (v, v'))) ∧
+    (∀ item v', WeeksIter.next v = .ok (some (item, v')) →
+      item = v ∧ DateInv v' ∧ dayNumOf v' = dayNumOf v + 7 ∧
+      ∃ n, WeeksIter.size_hint_pair v = .ok (n, some n) ∧
+        WeeksIter.size_hint_pair v' = .ok (n - 1, some (n - 1))) ∧
+    (WeeksIter.next v = .ok none ↔ WeeksIter.size_hint_pair v = .ok (0, some 0)) ∧
+    (WeeksIter.next v = .ok none ∨ ∃ v', WeeksIter.next v = .ok (some (v, v'))) := by
+  obtain ⟨c1, c2, _⟩ := dn_consts
+  obtain ⟨p1, p2⟩ := hint_pair_spec v h
+  have hb := dn_bounds v h
+  refine ⟨?_, ?_, step_total _ 1 days_next_steps v h, ?_, ?_, step_total _ 7 weeks_next_steps v h⟩
+  · intro item v' hs
+    obtain ⟨e, hi, hd⟩ := step_some _ 1 days_next_steps v item v' h hs
+    obtain ⟨q1, _⟩ := hint_pair_spec v' hi
+    refine ⟨e, hi, hd, _, p1, ?_⟩
+    rw [q1, hd]
+    have e1 : 95745399 - (dayNumOf v + 1) = 95745399 - dayNumOf v - 1 := by omega
+    rw [e1]
+  · rw [step_none _ 1 days_next_steps v h, p1, c1, c2]
+    simp only [Res.ok.injEq, Prod.mk.injEq, Option.some.injEq]
+    omega
+  · intro item v' hs
+    obtain ⟨e, hi, hd⟩ := step_some _ 7 weeks_next_steps v item v' h hs
+    obtain ⟨_, q2⟩ := hint_pair_spec v' hi
+    refine ⟨e, hi, hd, _, p2, ?_⟩
+    rw [q2, hd]
+    have e1 : (95745399 - (dayNumOf v + 7)) / 7 = (95745399 - dayNumOf v) / 7 - 1 := by omega
+    rw [e1]
+  · rw [step_none _ 7 weeks_next_steps v h, p2, c1, c2]
+    simp only [Res.ok.injEq, Prod.mk.injEq, Option.some.injEq]
+    omega
+
+/-- forward iteration, the "exact length hint" clause in full: with enough calls the iterator
+produces exactly as many items as both bounds of `size_hint` announce, then reports exhaustion -/
+theorem iter_size_hint_forward_exact (v : Date) (fuel : Nat) (h : DateInv v) :
+    (∃ n, DaysIter.size_hint_pair v = .ok (n, some n) ∧ (n < fuel →
+      ∃ items, drain DaysIter.next fuel v = .ok (items, true) ∧ (items.length : Int) = n)) ∧
+    (∃ n, WeeksIter.size_hint_pair v = .ok (n, some n) ∧ (n < fuel →
+      ∃ items, drain WeeksIter.next fuel v = .ok (items, true) ∧ (items.length : Int) = n)) := by
+  obtain ⟨p1, p2, _⟩ := iter_size_hint_pair v h
+  obtain ⟨⟨items, fin, a, b, c, _⟩, _⟩ := iter_days_nth v fuel h
+  obtain ⟨⟨items', fin', a', b', c', _⟩, _⟩ := iter_weeks_nth v fuel h
+  refine ⟨⟨_, p1, ?_⟩, ⟨_, p2, ?_⟩⟩
+  · intro hlt
+    have hf : fin = true := c.mpr hlt
+    subst hf
+    exact ⟨items, a, by rw [b]; omega⟩
+  · intro hlt
+    have hf : fin' = true := c'.mpr hlt
+    subst hf
+    exact ⟨items', a', by rw [b']; omega⟩
+
+/-- backward iteration (known finding F28), what does happen, for every valid cursor: `next_back`
+returns the cursor and moves it one step toward `MIN`, and the hint — still the distance to `MAX` —
+GROWS by one with every item; the number of items `next_back` still produces is the distance to
+`MIN` (`dayNum − DN_MIN`, resp. a seventh of it) -/
+theorem iter_back_hint (v : Date) (h : DateInv v) :
+    (∀ item v', DaysIter.next_back v = .ok (some (item, v')) →
+      item = v ∧ DateInv v' ∧ dayNumOf v' = dayNumOf v - 1 ∧
+      ∃ n, DaysIter.size_hint_pair v = .ok (n, some n) ∧
+        DaysIter.size_hint_pair v' = .ok (n + 1, some (n + 1))) ∧
+    (∀ item v', WeeksIter.next_back v = .ok (some (item, v')) →
+      item = v ∧ DateInv v' ∧ dayNumOf v' = dayNumOf v - 7 ∧
+      ∃ n, WeeksIter.size_hint_pair v = .ok (n, some n) ∧
+        WeeksIter.size_hint_pair v' = .ok (n + 1, some (n + 1))) ∧
+    (∀ fuel : Nat, dayNumOf v - DN_MIN < fuel →
+      ∃ items, drain DaysIter.next_back fuel v = .ok (items, true) ∧
+        (items.length : Int) = dayNumOf v - DN_MIN) ∧
+    (∀ fuel : Nat, (dayNumOf v - DN_MIN) / 7 < fuel →
+      ∃ items, drain WeeksIter.next_back fuel v = .ok (items, true) ∧
+        (items.length : Int) = (dayNumOf v - DN_MIN) / 7) := by
+  obtain ⟨p1, p2⟩ := hint_pair_spec v h
+  refine ⟨?_, ?_, ?_, ?_⟩
+  · intro item v' hs
+    obtain ⟨e, hi, hd⟩ := step_some _ (-1) days_back_steps v item v' h hs
+    obtain ⟨q1, _⟩ := hint_pair_spec v' hi
+    refine ⟨e, hi, by omega, _, p1, ?_⟩
+    rw [q1, hd]
+    have e1 : 95745399 - (dayNumOf v + -1) = 95745399 - dayNumOf v + 1 := by omega
+    rw [e1]
+  · intro item v' hs
+    obtain ⟨e, hi, hd⟩ := step_some _ (-7) weeks_back_steps v item v' h hs
+    obtain ⟨_, q2⟩ := hint_pair_spec v' hi
+    refine ⟨e, hi, by omega, _, p2, ?_⟩
+    rw [q2, hd]
+    have e1 : (95745399 - (dayNumOf v + -7)) / 7 = (95745399 - dayNumOf v) / 7 + 1 := by omega
+    rw [e1]
+  · intro fuel hlt
+    obtain ⟨_, ⟨items, fin, a, b, c, _⟩⟩ := iter_days_nth v fuel h
+    have hf : fin = true := c.mpr hlt
+    subst hf
+    exact ⟨items, a, by rw [b]; omega⟩
+  · intro fuel hlt
+    obtain ⟨_, ⟨items, fin, a, b, c, _⟩⟩ := iter_weeks_nth v fuel h
+    have hf : fin = true := c.mpr hlt
+    subst hf
+    exact ⟨items, a, by rw [b]; omega⟩
+
+/-- F28 as a kernel-checked counterexample to "exact length hint" for backward iteration: at
+`NaiveDate::MAX` both iterators announce `(0, Some(0))` and `next_back` goes on producing items -/
+theorem iter_back_hint_counterexample :
+    DaysIter.size_hint_pair Date.MAX = .ok (0, some 0) ∧
+    drain DaysIter.next_back 3 Date.MAX =
+      .ok ([Date.MAX, dateOfYo 262142 364, dateOfYo 262142 363], false) ∧
+    WeeksIter.size_hint_pair Date.MAX = .ok (0, some 0) ∧
+    drain WeeksIter.next_back 2 Date.MAX = .ok ([Date.MAX, dateOfYo 262142 358], false) ∧
+    DaysIter.size_hint_pair (dateOfYo (-262143) 3) = .ok (191491526, some 191491526) ∧
+    drain DaysIter.next_back 5 (dateOfYo (-262143) 3) =
+      .ok ([dateOfYo (-262143) 3, dateOfYo (-262143) 2], true) := by decide +kernel
+
+/-- exactly which cursors have a hint that is also right for a backward drain: the one day (the five
+days, for weeks) halfway between `MIN` and `MAX` -/
+theorem iter_back_hint_exact_iff (v : Date) (fuel : Nat) (items : List Date) (h : DateInv v) :
+    (drain DaysIter.next_back fuel v = .ok (items, true) →
+      (DaysIter.size_hint_pair v = .ok ((items.length : Int), some (items.length : Int)) ↔
+        dayNumOf v = -365)) ∧
+    (drain WeeksIter.next_back fuel v = .ok (items, true) →
+      (WeeksIter.size_hint_pair v = .ok ((items.length : Int), some (items.length : Int)) ↔
+        (-367 ≤ dayNumOf v ∧ dayNumOf v ≤ -363))) := by
+  obtain ⟨c1, c2, _⟩ := dn_consts
+  obtain ⟨p1, p2⟩ := hint_pair_spec v h
+  have hb := dn_bounds v h
+  constructor
+  · intro hd
+    obtain ⟨_, ⟨items', fin, a, b, c, _⟩⟩ := iter_days_nth v fuel h
+    rw [hd] at a
+    simp only [Res.ok.injEq, Prod.mk.injEq] at a
+    obtain ⟨a1, a2⟩ := a
+    subst a1; subst a2
+    have hlt := c.mp rfl
+    rw [p1]
+    simp only [Res.ok.injEq, Prod.mk.injEq, Option.some.injEq]
+    rw [c1] at b hlt
+    omega
+  · intro hd
+    obtain ⟨_, ⟨items', fin, a, b, c, _⟩⟩ := iter_weeks_nth v fuel h
+    rw [hd] at a
+    simp only [Res.ok.injEq, Prod.mk.injEq] at a
+    obtain ⟨a1, a2⟩ := a
+    subst a1; subst a2
+    have hlt := c.mp rfl
+    rw [p2]
+    simp only [Res.ok.injEq, Prod.mk.injEq, Option.some.injEq]
+    rw [c1] at b hlt
+    omega
+
+/-- "exact length hint" for a backward drain, PARTIAL: holds only under the explicit hypothesis that
+the cursor is the day halfway between the range ends (`iter_back_hint_exact_iff` shows the
+hypothesis cannot be dropped; `iter_back_hint` says what holds without it) -/
+theorem iter_hint_exact_backward_partial (v : Date) (fuel : Nat) (h : DateInv v)
+    (hmid : dayNumOf v = -365) (hf : dayNumOf v - DN_MIN < fuel) :
+    ∃ items, drain DaysIter.next_back fuel v = .ok (items, true) ∧
+      DaysIter.size_hint_pair v = .ok ((items.length : Int), some (items.length : Int)) := by
+  obtain ⟨items, a, _⟩ := (iter_back_hint v h).2.2.1 fuel hf
+  exact ⟨items, a, ((iter_back_hint_exact_iff v fuel items h).1 a).mpr hmid⟩
+
+example : DateInv (dateOfYo 262142 363) ∧ DateInv (dateOfYo 0 1) ∧ dayNumOf (dateOfYo 0 1) = -365 ∧
+    DaysIter.size_hint_pair (dateOfYo 262142 363) = .ok (2, some 2) ∧
+    DaysIter.next (dateOfYo 262142 363) = .ok (some (dateOfYo 262142 363, dateOfYo 262142 364)) ∧
+    DaysIter.size_hint_pair (dateOfYo 262142 364) = .ok (1, some 1) ∧
+    DaysIter.next Date.MAX = .ok none ∧
+    WeeksIter.size_hint_pair (dateOfYo 262142 351) = .ok (2, some 2) ∧
+    WeeksIter.next (dateOfYo 262142 359) = .ok none ∧
+    WeeksIter.size_hint_pair (dateOfYo 262142 359) = .ok (0, some 0) ∧
+    DaysIter.size_hint_pair Date.MIN = .ok (191491528, some 191491528) ∧
+    DaysIter.size_hint_pair (dateOfYo 0 1) = .ok (95745764, some 95745764) := by decide +kernel
+
+/-! ### interleaved `next` / `next_back` on one iterator value -/
+
+/-- any script of `next` (`false`) and `next_back` (`true`) calls on one iterator, every valid start:
+no panic; the dates returned are valid and their day numbers are those of a single cursor that a
+forward call moves exactly 1 (7) days up and a backward call exactly 1 (7) days down, each call
+returning the cursor it found, a call that would leave `[MIN, MAX]` returning `None` and leaving the
+cursor (`specScript`, day numbers only).  Hence within a run of calls in one direction no day is
+skipped or repeated; across a change of direction the two ends are NOT kept apart
+(`iter_interleaved_repeats`). -/
+theorem iter_interleaved (script : List Bool) (v : Date) (h : DateInv v) :
+    (∃ items, runScript DaysIter.next DaysIter.next_back script v = .ok items ∧
+      items.map (Option.map dayNumOf) = specScript 1 script (dayNumOf v) ∧
+      ∀ x, some x ∈ items → DateInv x) ∧
+    (∃ items, runScript WeeksIter.next WeeksIter.next_back script v = .ok items ∧
+      items.map (Option.map dayNumOf) = specScript 7 script (dayNumOf v) ∧
+      ∀ x, some x ∈ items → DateInv x) :=
+  ⟨runScript_spec _ _ 1 days_next_steps days_back_steps script v h,
+   runScript_spec _ _ 7 weeks_next_steps weeks_back_steps script v h⟩
+
+/-- `next, next_back, next` returns `d, d+1, d`: the iterators are one cursor, not two ends that
+meet (same root as F28); a `None` from `next` at `MAX` does not stop `next_back` -/
+theorem iter_interleaved_repeats :
+    runScript DaysIter.next DaysIter.next_back [false, true, false] (dateOfYo 2024 1) =
+      .ok [some (dateOfYo 2024 1), some (dateOfYo 2024 2), some (dateOfYo 2024 1)] ∧
+    runScript WeeksIter.next WeeksIter.next_back [false, true, true] (dateOfYo 2024 1) =
+      .ok [some (dateOfYo 2024 1), some (dateOfYo 2024 8), some (dateOfYo 2024 1)] ∧
+    runScript DaysIter.next DaysIter.next_back [false, false, true, true] (dateOfYo 262142 364) =
+      .ok [some (dateOfYo 262142 364), none, some Date.MAX, some (dateOfYo 262142 364)] ∧
+    specScript 1 [false, true, false] 100 = [some 100, some 101, some 100] := by decide +kernel
+
+/-! ### `NaiveDateTime ± Days` -/
+
+/-- `NaiveDateTime::checked_add_days / checked_sub_days`, every valid date-time (leap-second
+representations included), every `u64` count: the date part moves by exactly that many days or the
+call is refused exactly when that day is outside the range; the time of day is kept, so the instant
+moves by exactly `c` × 86 400 s; no panic -/
+theorem ndt_days_exact (dt : NaiveDT) (c : Int) (h : NDTInv dt) (hc : 0 ≤ c ∧ c ≤ 18446744073709551615) :
+    (∃ r, NaiveDT.checked_add_days dt c = .ok r ∧ IsDayShift dt.date c (r.map (·.date)) ∧
+      ∀ x, r = some x → x.time = dt.time ∧ NDTInv x ∧ instNs x = instNs dt + c * NS_PER_DAY) ∧
+    (∃ r, NaiveDT.checked_sub_days dt c = .ok r ∧ IsDayShift dt.date (-c) (r.map (·.date)) ∧
+      ∀ x, r = some x → x.time = dt.time ∧ NDTInv x ∧ instNs x = instNs dt - c * NS_PER_DAY) :=
+  ⟨ndt_add_days_spec dt c h hc, ndt_sub_days_spec dt c h hc⟩
+
+/-- the operators `NaiveDateTime + Days` / `- Days`: the value of the checked form, or a panic
+exactly when the day is outside the range -/
+theorem ndt_days_operator_exact (dt : NaiveDT) (c : Int) (h : NDTInv dt)
+    (hc : 0 ≤ c ∧ c ≤ 18446744073709551615) :
+    (DN_MIN ≤ dayNumOf dt.date + c ∧ dayNumOf dt.date + c ≤ DN_MAX →
+      ∃ x, NaiveDT.add_days_op dt c = .ok x ∧ NDTInv x ∧ dayNumOf x.date = dayNumOf dt.date + c ∧
+        x.time = dt.time) ∧
+    (¬ (DN_MIN ≤ dayNumOf dt.date + c ∧ dayNumOf dt.date + c ≤ DN_MAX) →
+      NaiveDT.add_days_op dt c = .panic) ∧
+    (DN_MIN ≤ dayNumOf dt.date + -c ∧ dayNumOf dt.date + -c ≤ DN_MAX →
+      ∃ x, NaiveDT.sub_days_op dt c = .ok x ∧ NDTInv x ∧ dayNumOf x.date = dayNumOf dt.date + -c ∧
+        x.time = dt.time) ∧
+    (¬ (DN_MIN ≤ dayNumOf dt.date + -c ∧ dayNumOf dt.date + -c ≤ DN_MAX) →
+      NaiveDT.sub_days_op dt c = .panic) := by
+  obtain ⟨r, a0, a1, a2⟩ := ndt_add_days_spec dt c h hc
+  obtain ⟨r', b0, b1, b2⟩ := ndt_sub_days_spec dt c h hc
+  unfold NaiveDT.add_days_op NaiveDT.sub_days_op
+  rw [a0, b0]
+  refine ⟨?_, ?_, ?_, ?_⟩
+  · intro hin
+    cases r with
+    | none => have := a1.1.mp rfl; omega
+    | some x =>
+      obtain ⟨t, i, _⟩ := a2 x rfl
+      exact ⟨x, rfl, i, (a1.2 x.date rfl).2, t⟩
+  · intro hout
+    cases r with
+    | none => rfl
+    | some x =>
+      exfalso
+      have hx : (Option.map (·.date) (some x) : Option Date) ≠ none := by simp
+      exact hx (a1.1.mpr (by omega))
+  · intro hin
+    cases r' with
+    | none => have := b1.1.mp rfl; omega
+    | some x =>
+      obtain ⟨t, i, _⟩ := b2 x rfl
+      exact ⟨x, rfl, i, (b1.2 x.date rfl).2, t⟩
+  · intro hout
+    cases r' with
+    | none => rfl
+    | some x =>
+      exfalso
+      have hx : (Option.map (·.date) (some x) : Option Date) ≠ none := by simp
+      exact hx (b1.1.mpr (by omega))
+
+example : NDTInv ⟨dateOfYo 2024 60, ⟨86399, 1999999999⟩⟩ ∧
+    NaiveDT.checked_add_days ⟨dateOfYo 2024 60, ⟨86399, 1999999999⟩⟩ 366 =
+      .ok (some ⟨dateOfYo 2025 60, ⟨86399, 1999999999⟩⟩) ∧
+    NaiveDT.checked_add_days NaiveDT.MIN 191491528 = .ok (some ⟨Date.MAX, ⟨0, 0⟩⟩) ∧
+    NaiveDT.checked_add_days NaiveDT.MIN 191491529 = .ok none ∧
+    NaiveDT.checked_add_days NaiveDT.MIN 4294967296 = .ok none ∧
+    NaiveDT.checked_sub_days NaiveDT.MAX 191491528 = .ok (some ⟨Date.MIN, ⟨86399, 999999999⟩⟩) ∧
+    NaiveDT.checked_sub_days NaiveDT.MAX 18446744073709551615 = .ok none ∧
+    NaiveDT.add_days_op NaiveDT.MAX 1 = .panic ∧
+    NaiveDT.sub_days_op NaiveDT.MAX 1 = .ok ⟨dateOfYo 262142 364, ⟨86399, 999999999⟩⟩ := by decide +kernel
+
+/-! ### operators in range terms: the exact value, or a panic exactly when it is not representable -/
+
+/-- `NaiveDateTime - TimeDelta` (companion of `operator_exact`) -/
+theorem operator_exact_sub (dt : NaiveDT) (δ : Delta) (hdt : NDTInv dt) (hnl : NonLeap dt) (hδ : DInv δ) :
+    (NS_MIN ≤ instNs dt + -(ns δ) ∧ instNs dt + -(ns δ) ≤ NS_MAX_DT →
+      ∃ x, NaiveDT.sub dt δ = .ok x ∧ NDTInv x ∧ NonLeap x ∧ instNs x = instNs dt + -(ns δ)) ∧
+    (¬ (NS_MIN ≤ instNs dt + -(ns δ) ∧ instNs dt + -(ns δ) ≤ NS_MAX_DT) → NaiveDT.sub dt δ = .panic) :=
+  expect_instShift dt (-(ns δ)) _ (dt_sub_exact dt δ hdt hnl hδ)
+
+/-- `NaiveDate ± TimeDelta` and `NaiveDate ± Days`: the date exactly that many whole days away, or a
+panic exactly when that day is outside `[MIN, MAX]` -/
+theorem date_operator_exact (d : Date) (δ : Delta) (c : Int) (hd : DateInv d) (hδ : DInv δ)
+    (hc : 0 ≤ c ∧ c ≤ 18446744073709551615) :
+    ((DN_MIN ≤ dayNumOf d + wholeDays (ns δ) ∧ dayNumOf d + wholeDays (ns δ) ≤ DN_MAX →
+        ∃ x, Date.add d δ = .ok x ∧ DateInv x ∧ dayNumOf x = dayNumOf d + wholeDays (ns δ)) ∧
+      (¬ (DN_MIN ≤ dayNumOf d + wholeDays (ns δ) ∧ dayNumOf d + wholeDays (ns δ) ≤ DN_MAX) →
+        Date.add d δ = .panic)) ∧
+    ((DN_MIN ≤ dayNumOf d + -(wholeDays (ns δ)) ∧ dayNumOf d + -(wholeDays (ns δ)) ≤ DN_MAX →
+        ∃ x, Date.sub d δ = .ok x ∧ DateInv x ∧ dayNumOf x = dayNumOf d + -(wholeDays (ns δ))) ∧
+      (¬ (DN_MIN ≤ dayNumOf d + -(wholeDays (ns δ)) ∧ dayNumOf d + -(wholeDays (ns δ)) ≤ DN_MAX) →
+        Date.sub d δ = .panic)) ∧
+    ((DN_MIN ≤ dayNumOf d + c ∧ dayNumOf d + c ≤ DN_MAX →
+        ∃ x, Date.add_days_op d c = .ok x ∧ DateInv x ∧ dayNumOf x = dayNumOf d + c) ∧
+      (¬ (DN_MIN ≤ dayNumOf d + c ∧ dayNumOf d + c ≤ DN_MAX) → Date.add_days_op d c = .panic)) ∧
+    ((DN_MIN ≤ dayNumOf d + -c ∧ dayNumOf d + -c ≤ DN_MAX →
+        ∃ x, Date.sub_days_op d c = .ok x ∧ DateInv x ∧ dayNumOf x = dayNumOf d + -c) ∧
+      (¬ (DN_MIN ≤ dayNumOf d + -c ∧ dayNumOf d + -c ≤ DN_MAX) → Date.sub_days_op d c = .panic)) := by
+  refine ⟨?_, ?_, ?_, ?_⟩
+  · rw [date_add_eq]; exact expect_dayShift d _ _ (date_add_signed_spec d δ hd hδ)
+  · rw [date_sub_eq]; exact expect_dayShift d _ _ (date_sub_signed_spec d δ hd hδ)
+  · exact expect_dayShift d _ _ (checked_add_days_spec d c hd hc)
+  · exact expect_dayShift d _ _ (checked_sub_days_spec d c hd hc)
+
+/-- `DateTime<Tz> ± TimeDelta` and `+=` / `-=` (which have their own source body): the value at
+exactly instant ± `ns δ` with the offset unchanged, or a panic exactly when that instant is not
+representable — the offset does not enter the condition -/
+theorem zoned_operator_exact (z : Zoned) (δ : Delta) (hz : NDTInv z.utc) (hnl : NonLeap z.utc) (hδ : DInv δ) :
+    ((NS_MIN ≤ zonedInstNs z + ns δ ∧ zonedInstNs z + ns δ ≤ NS_MAX_DT →
+        ∃ x, Zoned.add z δ = .ok x ∧ Zoned.add_assign z δ = .ok x ∧ x.off = z.off ∧ NDTInv x.utc ∧
+          NonLeap x.utc ∧ zonedInstNs x = zonedInstNs z + ns δ) ∧
+      (¬ (NS_MIN ≤ zonedInstNs z + ns δ ∧ zonedInstNs z + ns δ ≤ NS_MAX_DT) →
+        Zoned.add z δ = .panic ∧ Zoned.add_assign z δ = .panic)) ∧
+    ((NS_MIN ≤ zonedInstNs z + -(ns δ) ∧ zonedInstNs z + -(ns δ) ≤ NS_MAX_DT →
+        ∃ x, Zoned.sub z δ = .ok x ∧ Zoned.sub_assign z δ = .ok x ∧ x.off = z.off ∧ NDTInv x.utc ∧
+          NonLeap x.utc ∧ zonedInstNs x = zonedInstNs z + -(ns δ)) ∧
+      (¬ (NS_MIN ≤ zonedInstNs z + -(ns δ) ∧ zonedInstNs z + -(ns δ) ≤ NS_MAX_DT) →
+        Zoned.sub z δ = .panic ∧ Zoned.sub_assign z δ = .panic)) := by
+  obtain ⟨a1, a2⟩ := expect_instShift z.utc (ns δ) _ (dt_add_exact z.utc δ hz hnl hδ)
+  obtain ⟨b1, b2⟩ := expect_instShift z.utc (-(ns δ)) _ (dt_sub_exact z.utc δ hz hnl hδ)
+  have ea : Zoned.add z δ = (expectSome (z.utc.checked_add_signed δ)).bind fun u => .ok ⟨u, z.off⟩ := by
+    unfold Zoned.add; rw [zoned_add_eq, expect_zoned]
+  have es : Zoned.sub z δ = (expectSome (z.utc.checked_sub_signed δ)).bind fun u => .ok ⟨u, z.off⟩ := by
+    unfold Zoned.sub; rw [zoned_sub_eq, expect_zoned]
+  rw [zoned_add_assign_eq, zoned_sub_assign_eq, ea, es]
+  unfold zonedInstNs
+  refine ⟨⟨?_, ?_⟩, ⟨?_, ?_⟩⟩
+  · intro hin
+    obtain ⟨x, e, i1, i2, i3⟩ := a1 hin
+    rw [e]
+    exact ⟨⟨x, z.off⟩, rfl, rfl, rfl, i1, i2, i3⟩
+  · intro hout; rw [a2 hout]; exact ⟨rfl, rfl⟩
+  · intro hin
+    obtain ⟨x, e, i1, i2, i3⟩ := b1 hin
+    rw [e]
+    exact ⟨⟨x, z.off⟩, rfl, rfl, rfl, i1, i2, i3⟩
+  · intro hout; rw [b2 hout]; exact ⟨rfl, rfl⟩
+
+/-- the assign forms are the operator forms: `NaiveDate`, `NaiveDateTime` by their source text
+(`*self = self.add(rhs)`), `DateTime<Tz>` — whose `+=` / `-=` unwrap the checked sum of the stored UTC
+value and rebuild the value with `from_utc_datetime` — by proof -/
+theorem assign_forms_agree (d : Date) (dt : NaiveDT) (z : Zoned) (δ : Delta) (s n : Int) :
+    Date.add_assign d δ = Date.add d δ ∧ Date.sub_assign d δ = Date.sub d δ ∧
+    NaiveDT.add_assign dt δ = NaiveDT.add dt δ ∧ NaiveDT.sub_assign dt δ = NaiveDT.sub dt δ ∧
+    NaiveDT.add_assign_std dt s n = NaiveDT.add_std dt s n ∧
+    NaiveDT.sub_assign_std dt s n = NaiveDT.sub_std dt s n ∧
+    Zoned.add_assign z δ = Zoned.add z δ ∧ Zoned.sub_assign z δ = Zoned.sub z δ ∧
+    Zoned.add_assign_std z s n = Zoned.add_std z s n ∧
+    Zoned.sub_assign_std z s n = Zoned.sub_std z s n := by
+  refine ⟨rfl, rfl, rfl, rfl, rfl, rfl, zoned_add_assign_eq z δ, zoned_sub_assign_eq z δ, ?_, ?_⟩
+  · unfold Zoned.add_assign_std Zoned.add_std
+    cases Delta.from_std s n with
+    | none => rfl
+    | some x => exact zoned_add_assign_eq z x
+  · unfold Zoned.sub_assign_std Zoned.sub_std
+    cases Delta.from_std s n with
+    | none => rfl
+    | some x => exact zoned_sub_assign_eq z x
+
+example : Zoned.add_assign ⟨NaiveDT.MAX, -86399⟩ ⟨0, 1⟩ = .panic ∧
+    Zoned.sub_assign ⟨NaiveDT.MAX, 86399⟩ ⟨0, 1⟩ = .ok ⟨⟨Date.MAX, ⟨86399, 999999998⟩⟩, 86399⟩ ∧
+    Zoned.add ⟨NaiveDT.MIN, -86399⟩ ⟨16544868105599, 999999999⟩ = .ok ⟨NaiveDT.MAX, -86399⟩ ∧
+    Zoned.sub ⟨NaiveDT.MIN, 3600⟩ ⟨0, 1⟩ = .panic ∧
+    NaiveDT.sub NaiveDT.MIN ⟨0, 1⟩ = .panic ∧
+    NaiveDT.sub NaiveDT.MAX ⟨16544868105599, 999999999⟩ = .ok NaiveDT.MIN ∧
+    Date.add Date.MAX ⟨86399, 999999999⟩ = .ok Date.MAX ∧ Date.add Date.MAX ⟨86400, 0⟩ = .panic ∧
+    Date.sub Date.MIN ⟨-86400, 0⟩ = .ok (dateOfYo (-262143) 2) ∧ Date.sub Date.MIN ⟨86400, 0⟩ = .panic := by
+  decide +kernel
+
+/-! ### `std::time::Duration` operands -/
+
+/-- the `Duration` operators are `expect(TimeDelta::from_std)` followed by the `TimeDelta` operator
+(C06 `std_spec`: `from_std` is exact or refused) -/
+theorem add_std_eq (dt : NaiveDT) (z : Zoned) (s n : Int) :
+    (NaiveDT.add_std dt s n = match Delta.from_std s n with | some d => NaiveDT.add dt d | none => .panic) ∧
+    (NaiveDT.sub_std dt s n = match Delta.from_std s n with | some d => NaiveDT.sub dt d | none => .panic) ∧
+    (Zoned.add_std z s n = match Delta.from_std s n with | some d => Zoned.add z d | none => .panic) ∧
+    (Zoned.sub_std z s n = match Delta.from_std s n with | some d => Zoned.sub z d | none => .panic) :=
+  ⟨rfl, rfl, rfl, rfl⟩
+
+/-- every valid non-leap date-time, every `std::time::Duration` (`u64` seconds, nanoseconds below
+10⁹): `dt ± duration` is the date-time exactly `s·10⁹ + n` ns later / earlier, and the operator
+panics exactly when the duration exceeds the `TimeDelta` range or the instant is not representable;
+the same for `DateTime<Tz>` with the offset kept -/
+theorem std_operator_exact (dt : NaiveDT) (z : Zoned) (s n : Int) (hdt : NDTInv dt) (hnl : NonLeap dt)
+    (hz : NDTInv z.utc) (hzl : NonLeap z.utc)
+    (hs : 0 ≤ s ∧ s ≤ 18446744073709551615) (hn : 0 ≤ n ∧ n < 1000000000) :
+    ((nsInRange (s * 1000000000 + n) ∧ instNs dt + (s * 1000000000 + n) ≤ NS_MAX_DT →
+        ∃ x, NaiveDT.add_std dt s n = .ok x ∧ NDTInv x ∧ NonLeap x ∧
+          instNs x = instNs dt + (s * 1000000000 + n)) ∧
+      (¬ (nsInRange (s * 1000000000 + n) ∧ instNs dt + (s * 1000000000 + n) ≤ NS_MAX_DT) →
+        NaiveDT.add_std dt s n = .panic)) ∧
+    ((nsInRange (s * 1000000000 + n) ∧ NS_MIN ≤ instNs dt - (s * 1000000000 + n) →
+        ∃ x, NaiveDT.sub_std dt s n = .ok x ∧ NDTInv x ∧ NonLeap x ∧
+          instNs x = instNs dt - (s * 1000000000 + n)) ∧
+      (¬ (nsInRange (s * 1000000000 + n) ∧ NS_MIN ≤ instNs dt - (s * 1000000000 + n)) →
+        NaiveDT.sub_std dt s n = .panic)) ∧
+    ((nsInRange (s * 1000000000 + n) ∧ zonedInstNs z + (s * 1000000000 + n) ≤ NS_MAX_DT →
+        ∃ x, Zoned.add_std z s n = .ok x ∧ x.off = z.off ∧ NDTInv x.utc ∧ NonLeap x.utc ∧
+          zonedInstNs x = zonedInstNs z + (s * 1000000000 + n)) ∧
+      (¬ (nsInRange (s * 1000000000 + n) ∧ zonedInstNs z + (s * 1000000000 + n) ≤ NS_MAX_DT) →
+        Zoned.add_std z s n = .panic)) ∧
+    ((nsInRange (s * 1000000000 + n) ∧ NS_MIN ≤ zonedInstNs z - (s * 1000000000 + n) →
+        ∃ x, Zoned.sub_std z s n = .ok x ∧ x.off = z.off ∧ NDTInv x.utc ∧ NonLeap x.utc ∧
+          zonedInstNs x = zonedInstNs z - (s * 1000000000 + n)) ∧
+      (¬ (nsInRange (s * 1000000000 + n) ∧ NS_MIN ≤ zonedInstNs z - (s * 1000000000 + n)) →
+        Zoned.sub_std z s n = .panic)) := by
+  have ib := inst_bounds dt hdt hnl
+  have zb := inst_bounds z.utc hz hzl
+  obtain ⟨k1, k2, _⟩ := ns_consts
+  by_cases hr : nsInRange (s * 1000000000 + n)
+  · obtain ⟨e, di, dn⟩ := from_std_some s n hs hn hr
+    obtain ⟨a1, a2⟩ := operator_exact dt ⟨s, n⟩ hdt hnl di
+    obtain ⟨b1, b2⟩ := operator_exact_sub dt ⟨s, n⟩ hdt hnl di
+    obtain ⟨⟨c1, c2⟩, ⟨d1, d2⟩⟩ := zoned_operator_exact z ⟨s, n⟩ hz hzl di
+    rw [dn] at a1 a2 b1 b2 c1 c2 d1 d2
+    unfold NaiveDT.add_std NaiveDT.sub_std Zoned.add_std Zoned.sub_std
+    rw [e]
+    dsimp only
+    unfold zonedInstNs at *
+    refine ⟨⟨?_, ?_⟩, ⟨?_, ?_⟩, ⟨?_, ?_⟩, ⟨?_, ?_⟩⟩
+    · intro hin; exact a1 ⟨by omega, hin.2⟩
+    · intro hout; apply a2; intro hc; exact hout ⟨hr, hc.2⟩
+    · intro hin
+      obtain ⟨x, q0, q1, q2, q3⟩ := b1 ⟨by omega, by omega⟩
+      exact ⟨x, q0, q1, q2, by omega⟩
+    · intro hout; apply b2; intro hc; exact hout ⟨hr, by omega⟩
+    · intro hin
+      obtain ⟨x, q0, _, q1, q2, q3, q4⟩ := c1 ⟨by omega, hin.2⟩
+      exact ⟨x, q0, q1, q2, q3, q4⟩
+    · intro hout; apply (c2 _).1; intro hc; exact hout ⟨hr, hc.2⟩
+    · intro hin
+      obtain ⟨x, q0, _, q1, q2, q3, q4⟩ := d1 ⟨by omega, by omega⟩
+      exact ⟨x, q0, q1, q2, q3, by omega⟩
+    · intro hout; apply (d2 _).1; intro hc; exact hout ⟨hr, by omega⟩
+  · have e := from_std_none s n hs hn hr
+    unfold NaiveDT.add_std NaiveDT.sub_std Zoned.add_std Zoned.sub_std
+    rw [e]
+    refine ⟨⟨?_, ?_⟩, ⟨?_, ?_⟩, ⟨?_, ?_⟩, ⟨?_, ?_⟩⟩
+    all_goals first
+      | (intro hin; exact absurd hin.1 hr)
+      | (intro _; rfl)
+
+example : NaiveDT.add_std ⟨dateOfYo 2024 1, ⟨0, 0⟩⟩ 86400 1 = .ok ⟨dateOfYo 2024 2, ⟨0, 1⟩⟩ ∧
+    NaiveDT.add_std NaiveDT.MIN 16544868105599 999999999 = .ok NaiveDT.MAX ∧
+    NaiveDT.add_std NaiveDT.MIN 16544868105600 0 = .panic ∧               -- 1 ns past MAX
+    NaiveDT.add_std NaiveDT.MIN 9223372036854775 807000001 = .panic ∧       -- beyond TimeDelta::MAX
+    NaiveDT.add_std NaiveDT.MIN 18446744073709551615 0 = .panic ∧
+    NaiveDT.sub_std NaiveDT.MIN 0 1 = .panic ∧ NaiveDT.add_std NaiveDT.MAX 0 1 = .panic ∧
+    Zoned.sub_std ⟨NaiveDT.MAX, 86399⟩ 0 1 = .ok ⟨⟨Date.MAX, ⟨86399, 999999998⟩⟩, 86399⟩ := by
+  decide +kernel
+
+/-! ### order and equality of zone-aware values -/
+
+/-- `Ord`, `PartialOrd` and `PartialEq` of `DateTime<Tz>` (also across two different zones) are
+those of the instants: the offsets do not enter -/
+theorem zoned_cmp_instant_order (a b : Zoned) (ha : NDTInv a.utc) (hb : NDTInv b.utc)
+    (la : NonLeap a.utc) (lb : NonLeap b.utc) :
+    Zoned.cmp a b = sgn (zonedInstNs a - zonedInstNs b) ∧
+    Zoned.partial_cmp a b = some (sgn (zonedInstNs a - zonedInstNs b)) ∧
+    (Zoned.cmp a b = -1 ↔ zonedInstNs a < zonedInstNs b) ∧
+    (Zoned.cmp a b = 0 ↔ zonedInstNs a = zonedInstNs b) ∧
+    (Zoned.cmp a b = 1 ↔ zonedInstNs a > zonedInstNs b) ∧
+    (Zoned.eq a b = true ↔ zonedInstNs a = zonedInstNs b) ∧
+    (∀ oa ob, Zoned.cmp ⟨a.utc, oa⟩ ⟨b.utc, ob⟩ = Zoned.cmp a b) := by
+  have hc : Zoned.cmp a b = sgn (zonedInstNs a - zonedInstNs b) := dt_cmp_spec a.utc b.utc ha hb la lb
+  refine ⟨hc, by unfold Zoned.partial_cmp; exact congrArg some hc, ?_, ?_, ?_, ?_, fun _ _ => rfl⟩
+  · rw [hc]; unfold sgn; repeat' split <;> omega
+  · rw [hc]; unfold sgn; repeat' split <;> omega
+  · rw [hc]; unfold sgn; repeat' split <;> omega
+  · unfold Zoned.eq zonedInstNs
+    rw [decide_eq_true_iff]
+    constructor
+    · intro h; rw [h]
+    · intro h; exact inst_inj a.utc b.utc ha hb la lb h
+
+example : Zoned.cmp ⟨⟨dateOfYo 2024 1, ⟨0, 0⟩⟩, 86399⟩ ⟨⟨dateOfYo 2024 1, ⟨0, 1⟩⟩, -86399⟩ = -1 ∧
+    Zoned.partial_cmp ⟨NaiveDT.MAX, -86399⟩ ⟨NaiveDT.MIN, 86399⟩ = some 1 ∧
+    Zoned.eq ⟨⟨dateOfYo 2024 1, ⟨0, 0⟩⟩, 3600⟩ ⟨⟨dateOfYo 2024 1, ⟨0, 0⟩⟩, -3600⟩ = true := by decide +kernel
+
+/-- fused: once `next` (`next_back`) has returned `None` it returns `None` on every further call — the
+refused call leaves the cursor where it was (`FusedIterator`) -/
+theorem iter_fused (v : Date) (k : Nat) :
+    (DaysIter.next v = .ok none →
+      runScript DaysIter.next DaysIter.next_back (List.replicate k false) v = .ok (List.replicate k none)) ∧
+    (DaysIter.next_back v = .ok none →
+      runScript DaysIter.next DaysIter.next_back (List.replicate k true) v = .ok (List.replicate k none)) ∧
+    (WeeksIter.next v = .ok none →
+      runScript WeeksIter.next WeeksIter.next_back (List.replicate k false) v = .ok (List.replicate k none)) ∧
+    (WeeksIter.next_back v = .ok none →
+      runScript WeeksIter.next WeeksIter.next_back (List.replicate k true) v = .ok (List.replicate k none)) :=
+  ⟨fun h => fused_fwd _ _ v h k, fun h => fused_back _ _ v h k,
+   fun h => fused_fwd _ _ v h k, fun h => fused_back _ _ v h k⟩
+
+example : DaysIter.next Date.MAX = .ok none ∧ WeeksIter.next_back (dateOfYo (-262143) 7) = .ok none ∧
+    runScript DaysIter.next DaysIter.next_back [false, false, false] Date.MAX = .ok [none, none, none] := by
+  decide +kernel
+
+/-- the cursor after `k` successful forward (backward) calls — what `Iterator::nth(k)` /
+`advance_by(k)` (std default methods: `k` calls of `next`) leave behind: the date exactly `k`
+(`7k`) days later (earlier), or exhaustion exactly when that day is outside the range -/
+theorem iter_nth_state (v : Date) (k : Nat) (h : DateInv v) :
+    (∃ r, stateAfter DaysIter.next k v = .ok r ∧ IsDayShift v k r) ∧
+    (∃ r, stateAfter DaysIter.next_back k v = .ok r ∧ IsDayShift v (-k) r) ∧
+    (∃ r, stateAfter WeeksIter.next k v = .ok r ∧ IsDayShift v (7 * k) r) ∧
+    (∃ r, stateAfter WeeksIter.next_back k v = .ok r ∧ IsDayShift v (-(7 * k)) r) := by
+  obtain ⟨r1, a1, b1⟩ := stateAfter_spec _ 1 (by omega) days_next_steps k v h
+  obtain ⟨r2, a2, b2⟩ := stateAfter_spec _ (-1) (by omega) days_back_steps k v h
+  obtain ⟨r3, a3, b3⟩ := stateAfter_spec _ 7 (by omega) weeks_next_steps k v h
+  obtain ⟨r4, a4, b4⟩ := stateAfter_spec _ (-7) (by omega) weeks_back_steps k v h
+  exact ⟨⟨r1, a1, dshift_congr v _ _ r1 (by omega) b1⟩, ⟨r2, a2, dshift_congr v _ _ r2 (by omega) b2⟩,
+    ⟨r3, a3, dshift_congr v _ _ r3 (by omega) b3⟩, ⟨r4, a4, dshift_congr v _ _ r4 (by omega) b4⟩⟩
+
+/-- `count()` and `last()` of a forward iterator (std default methods: drain with `next`): the number
+of items is the length hint, and the last item is the last day (week step) before `NaiveDate::MAX`
+is reached: day number `dayNum start + (hint − 1)` (`+ 7·(hint − 1)`) -/
+theorem iter_count_last (v : Date) (fuel : Nat) (h : DateInv v) (hf : DN_MAX - dayNumOf v < fuel) :
+    (∃ items, drain DaysIter.next fuel v = .ok (items, true) ∧
+      DaysIter.size_hint_pair v = .ok ((items.length : Int), some (items.length : Int)) ∧
+      ∀ (hne : items ≠ []), DateInv (items.getLast hne) ∧ dayNumOf (items.getLast hne) = DN_MAX - 1) ∧
+    (∃ items, drain WeeksIter.next fuel v = .ok (items, true) ∧
+      WeeksIter.size_hint_pair v = .ok ((items.length : Int), some (items.length : Int)) ∧
+      ∀ (hne : items ≠ []), DateInv (items.getLast hne) ∧
+        dayNumOf (items.getLast hne) = dayNumOf v + 7 * ((DN_MAX - dayNumOf v) / 7 - 1)) := by
+  obtain ⟨p1, p2, p3, _⟩ := iter_size_hint_pair v h
+  obtain ⟨⟨items, fin, a, b, c, d⟩, _⟩ := iter_days_nth v fuel h
+  obtain ⟨⟨items', fin', a', b', c', d'⟩, _⟩ := iter_weeks_nth v fuel h
+  have hfin : fin = true := c.mpr hf
+  have hfin' : fin' = true := c'.mpr (by omega)
+  subst hfin; subst hfin'
+  have hl : (items.length : Int) = DN_MAX - dayNumOf v := by rw [b]; omega
+  have hl' : (items'.length : Int) = (DN_MAX - dayNumOf v) / 7 := by rw [b']; omega
+  refine ⟨⟨items, a, by rw [hl]; exact p1, ?_⟩, ⟨items', a', by rw [hl']; exact p2, ?_⟩⟩
+  · intro hne
+    have hpos : 0 < items.length := List.length_pos_iff.mpr hne
+    rw [List.getLast_eq_getElem]
+    obtain ⟨q1, q2⟩ := d (items.length - 1) (by omega)
+    refine ⟨q1, ?_⟩
+    rw [q2]; omega
+  · intro hne
+    have hpos : 0 < items'.length := List.length_pos_iff.mpr hne
+    rw [List.getLast_eq_getElem]
+    obtain ⟨q1, q2⟩ := d' (items'.length - 1) (by omega)
+    refine ⟨q1, ?_⟩
+    rw [q2]; omega
+
+example : stateAfter DaysIter.next 2 (dateOfYo 262142 363) = .ok (some Date.MAX) ∧
+    stateAfter DaysIter.next 3 (dateOfYo 262142 363) = .ok none ∧
+    stateAfter WeeksIter.next_back 1 (dateOfYo (-262143) 8) = .ok (some Date.MIN) ∧
+    stateAfter WeeksIter.next_back 2 (dateOfYo (-262143) 8) = .ok none := by decide +kernel
+
+/-- the order of zone-aware values for ALL valid operands, leap-second representations included:
+lexicographic on (whole seconds since the epoch, nanosecond field) — for non-leap operands this is
+the order of instants (`zoned_cmp_instant_order`); a leap-second representation `:59.1xxxxxxxxx`
+sorts after every `:59.0…` and before `:00` of the next minute -/
+theorem zoned_cmp_general (a b : Zoned) (ha : NDTInv a.utc) (hb : NDTInv b.utc) :
+    Zoned.cmp a b =
+      sgn ((instSecs a.utc - instSecs b.utc) * 2000000000 + (a.utc.time.frac - b.utc.time.frac)) ∧
+    NaiveDT.cmp a.utc b.utc = Zoned.cmp a b :=
+  ⟨dt_cmp_general a.utc b.utc ha hb, rfl⟩
+
+example : Zoned.cmp ⟨⟨dateOfYo 2016 366, ⟨86399, 1500000000⟩⟩, 0⟩ ⟨⟨dateOfYo 2017 1, ⟨0, 0⟩⟩, 3600⟩ = -1 ∧
+    Zoned.cmp ⟨⟨dateOfYo 2016 366, ⟨86399, 1500000000⟩⟩, 0⟩ ⟨⟨dateOfYo 2016 366, ⟨86399, 999999999⟩⟩, 0⟩ = 1 := by
+  decide +kernel
+
+/-! ### range ends -/
+
+/-- `DateTime<FixedOffset>` at the range ends: whatever the offset (even when the wall-clock reading
+lies outside the `NaiveDateTime` range), the last representable instant refuses every positive
+duration and the first every negative one, steps inside the range are exact, and the distance
+between the ends is the full range -/
+theorem zoned_range_ends (off off' : Int) (δ : Delta) (hδ : DInv δ) :
+    (0 < ns δ → Zoned.checked_add_signed ⟨NaiveDT.MAX, off⟩ δ = .ok none ∧
+      Zoned.checked_sub_signed ⟨NaiveDT.MIN, off⟩ δ = .ok none) ∧
+    (0 ≤ ns δ ∧ ns δ ≤ NS_MAX_DT - NS_MIN →
+      ∃ x y, Zoned.checked_sub_signed ⟨NaiveDT.MAX, off⟩ δ = .ok (some ⟨x, off⟩) ∧
+        instNs x = NS_MAX_DT - ns δ ∧
+        Zoned.checked_add_signed ⟨NaiveDT.MIN, off⟩ δ = .ok (some ⟨y, off⟩) ∧
+        instNs y = NS_MIN + ns δ) ∧
+    Zoned.signed_duration_since ⟨NaiveDT.MAX, off⟩ ⟨NaiveDT.MIN, off'⟩ = .ok ⟨16544868105599, 999999999⟩ ∧
+    Zoned.signed_duration_since ⟨NaiveDT.MIN, off⟩ ⟨NaiveDT.MAX, off'⟩ = .ok ⟨-16544868105600, 1⟩ := by
+  obtain ⟨_, _, _, _, i1, i2, l1, l2, _⟩ := range_ends
+  obtain ⟨k1, k2, _⟩ := ns_consts
+  have m1 : instNs NaiveDT.MAX = NS_MAX_DT := rfl
+  have m2 : instNs NaiveDT.MIN = NS_MIN := rfl
+  refine ⟨?_, ?_,
+    by show NaiveDT.signed_duration_since NaiveDT.MAX NaiveDT.MIN = _; decide +kernel,
+    by show NaiveDT.signed_duration_since NaiveDT.MIN NaiveDT.MAX = _; decide +kernel⟩
+  · intro hpos
+    obtain ⟨⟨r, a0, a1, _⟩, _, _⟩ := zoned_same_instant ⟨NaiveDT.MAX, off⟩ δ i2 l2 hδ
+    obtain ⟨_, ⟨r', b0, b1, _⟩, _⟩ := zoned_same_instant ⟨NaiveDT.MIN, off⟩ δ i1 l1 hδ
+    dsimp only at a1 b1
+    rw [a0, b0]
+    have hr : r.map (·.utc) = none := a1.1.mpr (by rw [m1]; omega)
+    have hr' : r'.map (·.utc) = none := b1.1.mpr (by rw [m2]; omega)
+    cases r with
+    | some x => simp at hr
+    | none => cases r' with
+      | some x => simp at hr'
+      | none => exact ⟨rfl, rfl⟩
+  · intro hin
+    obtain ⟨_, ⟨r, a0, a1, a2⟩, _⟩ := zoned_same_instant ⟨NaiveDT.MAX, off⟩ δ i2 l2 hδ
+    obtain ⟨⟨r', b0, b1, b2⟩, _, _⟩ := zoned_same_instant ⟨NaiveDT.MIN, off⟩ δ i1 l1 hδ
+    dsimp only at a1 b1 a2 b2
+    rw [a0, b0]
+    cases r with
+    | none => have := a1.1.mp rfl; rw [m1] at this; omega
+    | some x =>
+      cases r' with
+      | none => have := b1.1.mp rfl; rw [m2] at this; omega
+      | some y =>
+        obtain ⟨xu, xo⟩ := x
+        obtain ⟨yu, yo⟩ := y
+        have ex := (a2 _ rfl).1
+        have ey := (b2 _ rfl).1
+        dsimp only at ex ey
+        subst ex; subst ey
+        refine ⟨xu, yu, rfl, ?_, rfl, ?_⟩
+        · have := (a1.2 xu rfl).2.2; rw [m1] at this; omega
+        · have := (b1.2 yu rfl).2.2; rw [m2] at this; omega
+
+example : Zoned.checked_sub_signed ⟨NaiveDT.MAX, 86399⟩ ⟨16544868105599, 999999999⟩ =
+      .ok (some ⟨NaiveDT.MIN, 86399⟩) ∧
+    Zoned.checked_add_signed ⟨NaiveDT.MIN, -86399⟩ ⟨16544868105599, 999999999⟩ =
+      .ok (some ⟨NaiveDT.MAX, -86399⟩) ∧
+    Zoned.checked_add_signed ⟨NaiveDT.MAX, -86399⟩ ⟨0, 1⟩ = .ok none ∧
+    Zoned.checked_sub_signed ⟨NaiveDT.MIN, 86399⟩ ⟨0, 1⟩ = .ok none := by decide +kernel
+
+/-- `NaiveDate::signed_duration_since` at its extremes: every difference lies within ± the full range
+(191 491 528 days), and the extremes are attained by `MAX − MIN` and `MIN − MAX` only -/
+theorem date_diff_extremes (a b : Date) (ha : DateInv a) (hb : DateInv b) :
+    ∃ δ, Date.signed_duration_since a b = .ok δ ∧ DInv δ ∧
+      -(191491528 * NS_PER_DAY) ≤ ns δ ∧ ns δ ≤ 191491528 * NS_PER_DAY ∧
+      (ns δ = 191491528 * NS_PER_DAY ↔ (a = Date.MAX ∧ b = Date.MIN)) ∧
+      (ns δ = -(191491528 * NS_PER_DAY) ↔ (a = Date.MIN ∧ b = Date.MAX)) := by
+  obtain ⟨h1, h2, h3, _⟩ := date_diff_exact a b ha hb
+  obtain ⟨e1, e2, e3, e4⟩ := ends_inv
+  have ba := dn_bounds a ha
+  have bb := dn_bounds b hb
+  have hN : NS_PER_DAY = 86400000000000 := rfl
+  refine ⟨_, h1, h2, ?_, ?_, ?_, ?_⟩
+  · rw [h3, hN]; omega
+  · rw [h3, hN]; omega
+  · rw [h3, hN]
+    constructor
+    · intro h
+      exact ⟨dayNum_inj a Date.MAX ha e2 (by omega), dayNum_inj b Date.MIN hb e1 (by omega)⟩
+    · rintro ⟨rfl, rfl⟩; rw [e3, e4]; omega
+  · rw [h3, hN]
+    constructor
+    · intro h
+      exact ⟨dayNum_inj a Date.MIN ha e1 (by omega), dayNum_inj b Date.MAX hb e2 (by omega)⟩
+    · rintro ⟨rfl, rfl⟩; rw [e3, e4]; omega
 
 end Chrono.Props.C03
